@@ -32,8 +32,8 @@ package agreement
 // Service.persistStatus / persistActions are inspected); the shell then mirrors what the real code
 // does, so reverting the fix makes this check fail again.
 //
-// Mutants (bin/mut, quick tier):
-//   DETECTED  service.go: the three assignments of fix 78a4db2146 removed (the finding itself).
+// Mutants (bin/mut C02, quick tier, on the fixed tree; all three fail TestVerif_C02_statemachine):
+//   DETECTED  service.go: the three assignments of fix 78a4db2146 removed (the finding itself; seen through the probe).
 //   DETECTED  actions.go pseudonodeAction.persistent() returns false for attest (the shell uses the real
 //             persistent(): the snapshot is then the pre-vote/empty state): honest accounts re-vote after ONE
 //             crash; shows as the contract panic "more than value reached a threshold" in voteTracker.
